@@ -203,6 +203,35 @@ def mixed_version_function_cases():
     return out
 
 
+def deep_chain_cases():
+    """Functions calling functions calling functions: chains of depth 3, 4 and 5 (Level_k calls Level_{k-1} and adds its own operator),
+    called from the main graph, from an If branch, and twice; every level needs its definition, and the value is the composition."""
+    import spox.opset.ai.onnx.v17 as op17
+    from spox._function import to_function
+
+    out = []
+    for depth in (3, 4, 5):
+        levels = []
+        for k in range(depth):
+            if k == 0:
+                f = to_function(f"Level0_of{depth}", "verif.deep")(lambda x: [op17.add(x, op17.const(np.array(1.0, np.float32)))])
+            else:
+                def mk_body(prev, k):
+                    return lambda x: [op17.mul(list(prev(x))[0], op17.const(np.array(float(k + 1), np.float32)))]
+
+                f = to_function(f"Level{k}_of{depth}", "verif.deep")(mk_body(levels[-1], k))
+            levels.append(f)
+        top = levels[-1]
+        a = B.argument(B.Tensor(np.float32, (2,)))
+        c = B.argument(B.Tensor(np.bool_, ()))
+        out.append(B.Case({"a": a, "c": c}, {"r": list(top(a))[0]}, False, {"deep_chain": f"depth-{depth}/main"}))
+        a = B.argument(B.Tensor(np.float32, (2,)))
+        c = B.argument(B.Tensor(np.bool_, ()))
+        (r,) = op17.if_(c, then_branch=lambda: list(top(a)), else_branch=lambda: [op17.neg(a)])
+        out.append(B.Case({"a": a, "c": c}, {"r": r, "s": list(top(r))[0]}, False, {"deep_chain": f"depth-{depth}/if-branch-and-main"}))
+    return out
+
+
 def signature_and_history_cases():
     """(a) a function with MANY inputs and outputs (12 / 11: positional binding of actuals to formals must follow the declaration order,
     not e.g. the lexicographic order of generated names in0, in1, in10, in11, in2 ...), called at two chained sites; (b) a to_function
@@ -256,6 +285,7 @@ def run(run: Run) -> int:
             c.coq = None
         cases.append(c)
     cases += signature_and_history_cases()
+    cases += deep_chain_cases()
     mism = B.correspondence(run, "c14", cases)
     nprng = np.random.RandomState(run.seed)
     hist = collections.Counter()
